@@ -128,6 +128,13 @@ def gen_values(rng, dt, n, mode):
         pool = [0.0, 1.0, 0.5, 1.5, 2.5, 255.0, 3.4028234663852886e38, -3.4028234663852886e38,
                 1.0 + 2.0 ** -23, 2.0 ** -23, 2.0 ** -100, 1e-45, -1.0, 16777216.0, 16777217.0,
                 0.1, 1e30, -1e30, 1e-30, 65504.0]
+        if mode == "special":
+            sp = [float("inf"), float("-inf"), float("nan"), -0.0, 0.0, 1e-45, 1.1754942e-38, 5.9e-39,
+                  3.4028234663852886e38, -3.4028234663852886e38, 1.0, -2.5]
+            run_ = []
+            while len(run_) < n:            # runs of one value, so that whole blocks are +inf / -inf
+                run_ += [K.f32_bits(rng.choice(sp))] * rng.choice([1, 1, 2, 4, 8, 16])
+            return [K.canon("float32", b) for b in run_[:n]]
         if mode == "labels":
             pool = pool[:rng.randrange(2, 6)]
         if mode == "random":
@@ -218,8 +225,18 @@ def avg_region(dt, blk, f, got, want):
 
 
 def base_method(method):
-    """'auto:image' -> average, 'auto:segmentation' -> stride (get_downscaler's "auto")"""
+    """'auto:image' -> average, 'auto:segmentation' -> stride (get_downscaler's "auto");
+    an 'argv:' prefix means: configured through add_argparse_options, the documented recipe"""
+    if method.startswith("argv:"):
+        method = method[5:]
     return {"auto:image": "average", "auto:segmentation": "stride"}.get(method, method)
+
+
+def exact_or_float(dt, b):
+    """exact value of a raw voxel; non-finite float32 voxels as Python floats (inf, -inf, nan)"""
+    if dt == "float32" and not K.raw_is_finite(dt, b):
+        return K.bits_f32(b)
+    return K.exact(dt, b)
 
 
 def run_case(R, np, method, dt, shape, f, outside, raws, mrep, sreps, record=True, pool=None, group="",
@@ -246,6 +263,20 @@ def run_case(R, np, method, dt, shape, f, outside, raws, mrep, sreps, record=Tru
         opts = {}                     # a missing option means edge padding, too
 
     def make():
+        if call_method.startswith("argv:"):
+            # the documented recipe: add_argparse_options + get_downscaler(method, info, vars(args))
+            import argparse
+            from neuroglancer_scripts.downscaling import add_argparse_options
+            name = call_method[5:]
+            parser = argparse.ArgumentParser()
+            add_argparse_options(parser)
+            argv = ["--downscaling-method", "auto" if name.startswith("auto:") else name]
+            if outside is not None:
+                argv += ["--outside-value",
+                         str(int(outside)) if float(outside).is_integer() else repr(float(outside))]
+            args = parser.parse_args(argv)
+            info = {"type": name[5:]} if name.startswith("auto:") else None
+            return get_downscaler(args.downscaling_method, info, vars(args))
         if call_method.startswith("auto:"):
             return get_downscaler("auto", info={"type": call_method[5:]}, options=opts)
         return get_downscaler(method, options=opts)
@@ -299,7 +330,7 @@ def run_case(R, np, method, dt, shape, f, outside, raws, mrep, sreps, record=Tru
         R.violation("unsupported factors accepted", case, {"impl": impl[1][:2]})
         return problems + 1
     dtn, shp, got = impl[1]
-    if method != "average" and dt == "float32":
+    if method == "majority" and dt == "float32":
         got_cmp = [f32_key(b) for b in got]
     else:
         got_cmp = got
@@ -316,8 +347,6 @@ def run_case(R, np, method, dt, shape, f, outside, raws, mrep, sreps, record=Tru
     if method == "stride":
         _, want = ref_stride(raws, shape, f)
         spec = sreps[0][1]
-        if dt == "float32":
-            spec = [f32_unkey(k) for k in spec]
         if spec != want:
             R.violation("extracted stride_spec disagrees with the Python restatement (harness self-check)",
                         case, {})
@@ -329,7 +358,7 @@ def run_case(R, np, method, dt, shape, f, outside, raws, mrep, sreps, record=Tru
     elif method == "majority":
         keys = [f32_key(b) for b in raws] if dt == "float32" else raws
         _, want = ref_majority(keys, shape, f)
-        if sreps[0][0] != want:
+        if sreps and sreps[0][0] != want:
             R.violation("extracted majority_spec disagrees with the Python restatement (harness self-check)",
                         case, {"spec": sreps[0][0][:8], "ref": want[:8]})
             problems += 1
@@ -338,14 +367,28 @@ def run_case(R, np, method, dt, shape, f, outside, raws, mrep, sreps, record=Tru
                         {"impl": got_cmp[:16], "spec": want[:16]})
             problems += 1
     else:
-        qs = [K.exact(dt, b) for b in raws]
+        qs = [exact_or_float(dt, b) for b in raws]
         oq = None if outside is None else Fraction(outside)
         _, blocks = ref_blocks(qs, shape, f, oq)
-        spec = sreps[0][1]
+        spec = sreps[0][1] if sreps else None
         for k, blk in enumerate(blocks):
+            special = [v for v in blk if isinstance(v, float)]
+            if special:
+                # non-finite contributors: a block of +inf (or -inf) voxels has the mean +inf
+                # (-inf), which float32 holds exactly; NaN or both signs: no claim
+                if any(v != v for v in special) or len({v for v in special}) > 1:
+                    continue
+                w = 0x7F800000 if special[0] > 0 else 0xFF800000
+                if got[k] != w:
+                    R.violation("average of a block with infinite voxels is not that infinity "
+                                "(outside [min, max] of its contributors)", case,
+                                {"index": k, "impl": got[k], "spec": w})
+                    problems += 1
+                    break
+                continue
             q = sum(blk) / len(blk)
             want = K.ref_nearest(dt, q)
-            if spec[k] != want:
+            if spec is not None and spec[k] != want:
                 R.violation("extracted avg_spec disagrees with the Fraction restatement (harness self-check)",
                             case, {"index": k, "spec": spec[k], "ref": want})
                 problems += 1
@@ -378,14 +421,19 @@ def model_requests(method, dt, shape, f, outside, raws):
     if method == "average":
         ov = [] if outside is None else [K.f64_bits(float(outside))]
         req = ("average", [Atom(dt), ov, list(f), list(shape), raws])
-        qs = [K.exact(dt, b) for b in raws]
+        finite = all(K.raw_is_finite(dt, b) for b in raws)
+        qs = [K.exact(dt, b) for b in raws] if finite else []
         oq = [] if outside is None else [[Fraction(outside).numerator, Fraction(outside).denominator]]
-        ok_f = len(f) == 3 and all(x in (1, 2) for x in f)
+        ok_f = len(f) == 3 and all(x in (1, 2) for x in f) and finite
         spec = [("avg_spec", [Atom(dt), oq, list(f), list(shape),
                               [[q.numerator, q.denominator] for q in qs]])] if ok_f else []
         return req, spec
-    vals = [f32_key(b) for b in raws] if dt == "float32" else raws
+    # majority needs the order of float32 labels (an order-preserving key); striding only
+    # moves bit patterns (NaN, -0.0 and infinities included)
+    vals = [f32_key(b) for b in raws] if dt == "float32" and method == "majority" else raws
     ok_f = len(f) == 3 and all(isinstance(x, int) and x >= 1 for x in f)
+    if ok_f and method == "majority" and f[0] * f[1] * f[2] > 4096:
+        ok_f = False      # the extracted oracle majority_ref is quadratic in the block size
     spec = [(method + "_spec", [list(f), list(shape), vals])] if ok_f else []
     return (method, [list(f), list(shape), vals]), spec
 
@@ -444,6 +492,47 @@ def gen_cases(R):
             if dt == "float32":
                 raws = [0 if b == 0x80000000 else b for b in raws]
             cases.append((method, dt, sh, f, rng.choice(OUTSIDE) if method == "average" else None, raws, "badfactor"))
+    # special float32 voxels (inf, -inf, NaN, -0.0, denormals, FLT_MAX): averaging and striding
+    for k in range(60 if quick else 2500):
+        sh = small_shape()
+        n = sh[0] * sh[1] * sh[2] * sh[3]
+        if k % 4:
+            f, ov = list(rng.choice(list(itertools.product([1, 2], repeat=3)))), rng.choice(OUTSIDE)
+            cases.append(("average", "float32", sh, f, ov, gen_values(rng, "float32", n, "special"), "special"))
+        else:
+            cases.append(("stride", "float32", sh, [rng.randrange(1, 4) for _ in range(3)], None,
+                          gen_values(rng, "float32", n, "special"), "special"))
+    for sh, f in (((1, 2, 2, 2), [2, 2, 2]), ((1, 1, 1, 4), [2, 1, 1]), ((2, 3, 3, 3), [2, 2, 2])):
+        n = sh[0] * sh[1] * sh[2] * sh[3]
+        for v in (float("inf"), float("-inf")):
+            cases.append(("average", "float32", sh, f, None, [K.f32_bits(v)] * n, "special"))
+    # majority blocks above 4096 voxels (arbitrary integer factors are accepted): the label on
+    # the even sub-lattice differs from the majority label
+    def lattice_labels(sh, a, b_):
+        return [a if (z % 2 == 0 and y % 2 == 0 and x % 2 == 0) else b_
+                for _c in range(sh[0]) for z in range(sh[1]) for y in range(sh[2]) for x in range(sh[3])]
+    for sh, f in (((1, 17, 17, 16), [16, 17, 17]), ((1, 18, 17, 33), [16, 17, 17]),
+                  ((1, 2, 65, 64), [64, 64, 2]), ((1, 16, 16, 17), [17, 16, 16])):
+        cases.append(("majority", "uint8", sh, f, None, lattice_labels(sh, 5, 3), "large-block"))
+        cases.append(("stride", "uint16", sh, f, None, lattice_labels(sh, 7, 65535), "large-block"))
+    # the downscaler configured THROUGH THE PARSER (add_argparse_options + get_downscaler(method,
+    # info, vars(args))), with outside values that need more than 24 bits or are not dyadic
+    for k, ov in enumerate([16777217.0, 2.0 ** 31 + 1, 0.1, 1.5, None, 16777217.0, 2.0 ** 31 + 1, 0.1,
+                            255.0, 4294967295.0]):
+        for dt in (("uint32", "uint64") if ov is not None and ov > 70000 else ("uint8", "uint16", "uint32", "float32")):
+            sh = (1, 1 + 2 * (k % 2), 3, 5)
+            n = sh[0] * sh[1] * sh[2] * sh[3]
+            hi = K.irange(dt)[1] if dt != "float32" else None
+            if dt == "float32":
+                raws = [K.f32_bits(float(j % 7) + 0.25 * (j % 3)) for j in range(n)]
+            else:
+                raws = [min(hi, (j * 2654435761 + k) % 4294967296) if dt in ("uint32", "uint64") else (j * 37 + k) % (hi + 1)
+                        for j in range(n)]
+            cases.append(("argv:average", dt, sh, [2, 2, 2] if k % 3 else [2, 1, 2], ov, raws, "argv"))
+    for m_ in ("argv:majority", "argv:stride", "argv:auto:image", "argv:auto:segmentation"):
+        sh = (1, 3, 4, 5)
+        cases.append((m_, "uint16", sh, [2, 2, 1] if "image" in m_ else [2, 3, 1], 1.5 if "image" in m_ else None,
+                      [(j * 91) % 65536 for j in range(60)], "argv"))
     # ONE downscaler object across chunks of different data types, in several orders:
     # the later chunks hold values the earlier types cannot represent and fractional means
     def seq_values(dt, n):
